@@ -1,2 +1,5 @@
 import LP.Props.C08
-#print axioms LP.C08_placeholder
+#print axioms LP.C08_cmp
+#print axioms LP.ZAlg.C07_select_sound
+#print axioms LP.Alg.cmp_sound
+#print axioms LP.Alg.floor_sound
